@@ -81,7 +81,7 @@ func c02exec(c *h.Ctx, cs *h.Case) {
 				if it.Node != nil {
 					id = "?"
 					for i, n := range nodes {
-						if n == it.Node {
+						if n.ID.Equal(it.Node.ID) {
 							_, si := ct.t.Roster.Search(n.ServerIdentity.ID)
 							srv := -1
 							for j := range f.cl.Servers {
